@@ -150,6 +150,12 @@ def run(ctx):
             cases.append({"kind": "sign", "d": dk, "id": idd, "mf": 0, "mlen": ml, "ks": [hex(rnd.randrange(1, N))[2:]]})
     for ml in mlens:
         cases.append({"kind": "sign", "d": keys[5], "id": {"kind": "default"}, "mf": 0, "mlen": ml, "ks": [hex(rnd.randrange(1, N))[2:]]})
+    # block boundaries of the two hashes behind a signature: e = SM3(ZA || M) pads at |M| = 23, 24, 32 (mod 64), and
+    # ZA = SM3(ENTL || ID || a || b || G || P) at |ID| = 53, 54, 62 (mod 64)
+    for ml in (23, 24, 32, 87):
+        cases.append({"kind": "sign", "d": keys[5], "id": {"kind": "default"}, "mf": 0, "mlen": ml, "ks": [hex(rnd.randrange(1, N))[2:]]})
+    for idn in (53, 54, 62, 117):
+        cases.append({"kind": "sign", "d": keys[5], "id": {"kind": "len", "n": idn}, "mf": 0, "mlen": 1, "ks": [hex(rnd.randrange(1, N))[2:]]})
     rows = tlc_table(ctx, cases, "sign")
     std = rows_by(rows, cases[0])
     if std["expect"]["r"] != "f5a03b0648d2c4630eeac513e1bb81a15944da3827d5b74143ac7eaceee720b3" or \
